@@ -9,6 +9,7 @@ from .common import *
 from ..pm import has, pat, pmatch
 from ..pyfacts import Fn, py_guard
 from ..stage import Effect, Raise, Store
+from ..term import mk_op
 
 REL = "transactron/utils/dependencies.py"
 LIB = "transactron/lib/dependencies.py"
@@ -87,22 +88,40 @@ def get_optional(ctx):
         ctx.check(st_ok, "C42.cache-fill", r.site, f"get_optional_dependency[{name}].store", found="; ".join(f"{tstr(s.target)} <- {tstr(s.value)}" for s in stores) or "no store",
                   required="the combined value is stored in cache[key] exactly when key.cache (non-cached keys such as UnifierKey are recombined every time)")
     ctx.floor("C42", "get_optional_dependency configurations", n, 1, fn.site)
+    # get_dependency: KeyError exactly when the key is absent and emptiness is not allowed - decided on the key, not on the
+    # value: None is a legitimate dependency and a legitimate default (F35).  Otherwise the result of the optional read.
     g = Fn(ctx.repo, REL, "DependencyManager.get_dependency", "C42")
     key = g.param(1)
+    from ..logic import equivalent as _eq, f_and as _and, f_not as _not
+    from ..pyfacts import py_guard as _pg
+
+    absent = _and(_not(("atom", ("a", key, "empty_valid"))), _not(("atom", mk_op("in", key, pat("self.dependencies")))))
     n_ret = n_raise = 0
     for ex in g.exs:
-        c = _cfg(ex)
         rets = [r for r in ex.of(Return) if r.callid is None]
+        parts = [(to_formula(t) if v else _not(to_formula(t))) for t, v in ex.config]
+        reach = _and(*parts)
+        from ..logic import atoms_of as _atoms
+
+        on_value = [a for a in _atoms(reach) if a[0] == "op" and a[1] in ("is", "==") and ("c", None) in a[2:]]
         for r in rets:
             d = ex.vardefs.get(r.value[2]) if r.value[0] == "v" else r.value
-            ok = d == ("call", ("a", ("self",), "get_optional_dependency"), (key,), ()) and c.get("(None is ret)") is False
+            ok = d == ("call", ("a", ("self",), "get_optional_dependency"), (key,), ()) and not on_value
             n_ret += 1
-            ctx.check(ok, "C42.get-dependency", r.site, "get_dependency.result", found=tstr(d) if d else tstr(r.value), required="returns get_optional_dependency(key) when it is not None")
+            ctx.check(ok, "C42.get-dependency", r.site, "get_dependency.result", found=(tstr(d) if d else tstr(r.value)) + (" after a test of the value against None" if on_value else ""),
+                      required="returns the optional read of the key; whether the key is missing is decided on the key (absent and emptiness not allowed), never on the value - None is a valid dependency and a valid default")
         for r in ex.of(Raise):
             n_raise += 1
-            ctx.check(c.get("(None is ret)") is True and pmatch("KeyError(Q_m)", r.exc) is not None, "C42.get-dependency", r.site, "get_dependency.missing", found=tstr(r.exc)[:80], required="a missing dependency raises KeyError")
+            # the raising path is the absent path: compare modulo the lock bookkeeping test
+            core = _and(*[p for p, (t, v) in zip(parts, ex.config) if "lock_on_get" not in tstr(t)])
+            ok = pmatch("KeyError(Q_m)", r.exc) is not None and _eq(core, absent) is None
+            locks = [e for e in ex.of(Effect) if pmatch("self.locked_dependencies.add(Q_k)", e.call) == {"k": key}]
+            lock_cfg = dict((tstr(t), v) for t, v in ex.config).get("key.lock_on_get")
+            ok_lock = lock_cfg is not None and bool(locks) == bool(lock_cfg)
+            ctx.check(ok, "C42.get-dependency", r.site, "get_dependency.missing", found=f"{tstr(r.exc)[:60]} if {fstr(core)}", required="KeyError exactly when the key has no dependencies and does not accept emptiness")
+            ctx.check(ok_lock, "C42.get-dependency", r.site, "get_dependency.missing.lock", found=f"lock_on_get={lock_cfg}: {len(locks)} lock(s)", required="a failed read locks the key like a successful one (when the key locks on get)")
     ctx.floor("C42", "get_dependency result paths", n_ret, 1, g.site)
-    ctx.check(n_raise >= 1, "C42.get-dependency", g.site, "get_dependency.missing-path", found=f"{n_raise} raising path(s)", required="a path on which a missing dependency (None) raises KeyError exists")
+    ctx.check(n_raise >= 1, "C42.get-dependency", g.site, "get_dependency.missing-path", found=f"{n_raise} raising path(s)", required="a path on which a missing dependency raises KeyError exists")
 
 
 def keys(ctx):
@@ -136,7 +155,21 @@ def keys(ctx):
     ctx.check(seen == {0, 1, 2, 3}, "C42.simple-key-total", fn.site, "SimpleKey.combine.cases", found=str(sorted(seen)), required="every list length selects a path")
     fn = Fn(ctx.repo, REL, "ListKey.combine", "C42")
     rets = [r for ex in fn.exs for r in ex.of(Return) if r.callid is None]
-    ctx.check(len(rets) == 1 and rets[0].value == fn.param(1), "C42.list-key", fn.site, "ListKey.combine", found="; ".join(tstr(r.value) for r in rets), required="returns the list of all dependencies unchanged (insertion order)")
+    # all dependencies in insertion order - in a list of the caller's own: the manager's list (or a cached one) handed out would
+    # change under the caller at the next add, and a caller that appends to it (TransactionManager does, to the list it got for
+    # DefinedMethodsKey) would change the contents of a locked key (F36)
+    data = fn.param(1)
+    copy_ok = len(rets) == 1 and rets[0].value in (("call", ("n", "list"), (data,), ()), ("call", ("a", data, "copy"), (), ()), ("i", data, ("slice", ("c", None), ("c", None), ("c", None))),
+                                                     ("list", ("star", data)))
+    ctx.check(copy_ok, "C42.list-key", fn.site, "ListKey.combine", found="; ".join(tstr(r.value) for r in rets), required="returns a new list with all dependencies in insertion order (not the manager's own list object)")
+    import ast as _ast
+
+    lk_cache = None
+    for cls in [n for n in ctx.repo.modules[REL].tree.body if isinstance(n, _ast.ClassDef) and n.name == "ListKey"]:
+        for st in cls.body:
+            if isinstance(st, _ast.Assign) and len(st.targets) == 1 and isinstance(st.targets[0], _ast.Name) and st.targets[0].id == "cache" and isinstance(st.value, _ast.Constant):
+                lk_cache = st.value.value
+    ctx.check(lk_cache is False, "C42.list-key-not-cached", fn.site, "ListKey.cache", found=str(lk_cache), required="cache = False: a cached list would be the shared object again")
     # class-level flags
     mod = ctx.repo.modules[REL]
     import ast as _ast
@@ -202,10 +235,14 @@ MUTANTS = [
     ("lock-always", REL, "        if key.lock_on_get:\n            self.locked_dependencies.add(key)", "        self.locked_dependencies.add(key)"),
     ("cache-always", REL, "        if key.cache:\n            self.cache[key] = val", "        self.cache[key] = val"),
     ("cache-before-absence-test", REL, "        if not key.empty_valid and key not in self.dependencies:\n            return None\n\n        if key in self.cache:\n            return self.cache[key]\n", "        if key in self.cache:\n            return self.cache[key]\n\n        if not key.empty_valid and key not in self.dependencies:\n            return None\n"),
-    ("get-dependency-returns-none", REL, "        if ret is None:\n            raise KeyError(f\"Dependency {key} not provided\")\n", ""),
+    ("get-dependency-returns-none", REL, "        if not key.empty_valid and key not in self.dependencies:\n            if key.lock_on_get:\n                self.locked_dependencies.add(key)\n            raise KeyError(f\"Dependency {key} not provided\")\n", ""),
+    ("get-dependency-none-is-missing", REL, "        return self.get_optional_dependency(key)  # type: ignore\n", "        ret = self.get_optional_dependency(key)\n        if ret is None:\n            raise KeyError(key)\n        return ret\n"),
+    ("get-dependency-failed-read-does-not-lock", REL, "            if key.lock_on_get:\n                self.locked_dependencies.add(key)\n            raise KeyError", "            raise KeyError"),
+    ("list-key-shared-object", REL, "        return list(data)", "        return data"),
+    ("list-key-cached", REL, "    # every read gets a list of its own: the caller may modify it\n    cache = False\n", ""),
     ("simple-key-last", REL, "        return data[0]", "        return data[-1]"),
     ("simple-key-many-accepted", REL, "        if len(data) != 1:\n            raise RuntimeError(f\"Key {self} assigned {len(data)} values, expected 1\")\n", ""),
-    ("list-key-reversed", REL, "    def combine(self, data: list[T]) -> list[T]:\n        return data", "    def combine(self, data: list[T]) -> list[T]:\n        return data[::-1]"),
+    ("list-key-reversed", REL, "    def combine(self, data: list[T]) -> list[T]:\n        return list(data)", "    def combine(self, data: list[T]) -> list[T]:\n        return list(data)[::-1]"),
     ("list-key-empty-invalid", REL, "    empty_valid = True\n", "    empty_valid = False\n"),
     ("unifier-cached", LIB, "    cache = False\n", "    cache = True\n"),
     ("unifier-key-drops-unifier", LIB, "            return unifier.method, (unifier,)", "            return unifier.method, tuple()"),
